@@ -33,6 +33,9 @@ type c08Scenario struct {
 	noContinue bool // ... and the peer never says "100 Continue" (the timeout sends the body)
 	interval   time.Duration
 	midSleep   time.Duration // inject this long after the retry wait began (instead of at its start)
+	ctxVia     string        // how the context gets onto the request: "" = SetContext before the call,
+	// "middleware" = installed by a client-level OnBeforeRequest middleware on every attempt, "hook" =
+	// installed by a retry hook (from the first retry wait on: only points from sleepStart on are injected)
 }
 
 type c08Peer interface {
@@ -299,7 +302,19 @@ func c08Exec(sc c08Scenario, kind string, trigger int, timeoutFlavour bool, clie
 				}
 			}})
 		}
-		rq.SetContext(cctx)
+		switch sc.ctxVia {
+		case "middleware":
+			c.OnBeforeRequest(func(_ *Client, r *Request) error {
+				if atomic.LoadInt32(&mainActive) == 1 {
+					r.SetContext(cctx)
+				}
+				return nil
+			})
+		case "hook":
+			rq.AddRetryHook(func(resp *Response, _ error) { resp.Request.SetContext(cctx) })
+		default:
+			rq.SetContext(cctx)
+		}
 		method := "GET"
 		if sc.expect > 0 {
 			rq.SetHeader("Expect", "100-continue")
@@ -661,6 +676,11 @@ func c08Scenarios(proto string) []c08Scenario {
 		{name: "retry-upload", proto: proto, up: 2, down: 1, failFirst: 1, maxRetries: 1, interval: iv},
 		// rare but legal: a negative retry count = retry without limit
 		{name: "retry-unlimited", proto: proto, down: 1, failFirst: 2, maxRetries: 9, unlimited: true, interval: iv / 3},
+		// rare but legal: the context is not on the request when the call starts — a client-level
+		// middleware binds every request to an application context / a retry hook gives the attempts
+		// that follow a context of their own
+		{name: "retry-ctx-middleware", proto: proto, down: 1, failFirst: 1, maxRetries: 1, interval: iv, ctxVia: "middleware"},
+		{name: "retry-ctx-hook", proto: proto, down: 1, failFirst: 2, maxRetries: 2, interval: iv, ctxVia: "hook"},
 	}
 	// rare but legal: "Expect: 100-continue" — after the request head the transport holds the body
 	// back until the peer says "100 Continue" (or ExpectContinueTimeout, far beyond the promptness
@@ -811,6 +831,19 @@ func c08ScriptLane(t *testing.T, proto string, lane string) {
 			if sc.waitConn {
 				picks = []int{0}
 			}
+			if sc.ctxVia == "hook" {
+				// the context exists from the first retry hook on
+				picks = nil
+				first := -1
+				for k, nm := range dry.injNames {
+					if nm == "sleepStart" && first < 0 {
+						first = k
+					}
+					if first >= 0 && (verifh.Thorough() || nm == "sleepStart" || k == n-1) {
+						picks = append(picks, k)
+					}
+				}
+			}
 			for _, k := range picks {
 				if hung {
 					break
@@ -866,19 +899,25 @@ func c08ScriptLane(t *testing.T, proto string, lane string) {
 		if verifh.Thorough() {
 			kinds = append(kinds, "deadline")
 		}
-		for _, kind := range kinds {
-			// injectable events: start, dialStart, dialDone, [hsDone,] delivered, wroteHdr, sleepStart, …
-			idx := 5
-			if proto == "h2" {
-				idx = 6
+		for _, via := range []string{"", "middleware", "hook"} {
+			for _, kind := range kinds {
+				// injectable events: start, dialStart, dialDone, [hsDone,] delivered, wroteHdr, sleepStart, …
+				idx := 5
+				if proto == "h2" {
+					idx = 6
+				}
+				sc.ctxVia = via
+				o := c08Exec(sc, kind, idx, false, 0)
+				if o.firedNm != "sleepStart" || o.early {
+					count("midsleep-inconclusive")
+					continue
+				}
+				count("midsleep")
+				if via != "" {
+					count("midsleep-ctx-" + via)
+				}
+				record0(o, fmt.Sprintf("%s/retry-midsleep%s/%s", proto, via, kind), 0)
 			}
-			o := c08Exec(sc, kind, idx, false, 0)
-			if o.firedNm != "sleepStart" || o.early {
-				count("midsleep-inconclusive")
-				continue
-			}
-			count("midsleep")
-			record0(o, fmt.Sprintf("%s/retry-midsleep/%s", proto, kind), 0)
 		}
 	}
 	must := []string{"dry-ok", "point=dialStart", "point=dialDone", "point=wroteHdr", "point=wrote", "point=wroteLast",
@@ -886,7 +925,7 @@ func c08ScriptLane(t *testing.T, proto string, lane string) {
 	must = append(must, "client-timeout")
 	switch proto {
 	case "h1":
-		must = append(must, "conn=new", "point=getConn", "midsleep", "point=delivered")
+		must = append(must, "conn=new", "point=getConn", "midsleep", "midsleep-ctx-middleware", "midsleep-ctx-hook", "point=delivered")
 	case "h2":
 		must = append(must, "point=hsDone", "rst-seen", "point=delivered")
 	case "h3":
